@@ -23,7 +23,8 @@ RULE = ("Hypothesis draws a store state (empty, or populated by a generated hist
         "snapshot of the whole store directory (every path incl. directories, size, sha256) is "
         "identical before and after; the in-memory locked-identifier lists are empty. Non-trivial = "
         "populated store or two bad parameters; distinct key = (method, bad parameter kinds and "
-        "values, populated, whether the content/pid involved already exists).")
+        "values, populated, whether the content/pid involved already exists)."
+        ' Round 9: delete_if_invalid_object with BOTH checksum and algorithm None (required there, optional for store_object); one populated case in five first brings pid p1 into a partial reference state that a process death leaves (cid list missing, pid not listed, pid reference missing, object missing): read-only calls on it may fail or succeed but repair nothing.')
 ASSUMPTIONS = ["for format ids only whitespace-only strings are documented as rejected; other odd format "
                "ids are checked conditionally (if the call raises, nothing changed)"]
 
